@@ -8,7 +8,7 @@ import numpy as np
 
 from .. import alph
 from .. import oracles as O
-from ..core import CaseResult, twice
+from ..core import CaseResult, twice, variants
 
 PROP = "C13"
 LEVEL = "exploration"
@@ -133,6 +133,19 @@ def check_case(case):
                 for kind, out in alph.dirty_call(lambda u_, c_: mod.ubi_to_u_and_eps(u_, c_), (ubi0, other), (ubi0, cell), pos=1):
                     r.check("ubi->eps dirty", float(np.max(np.abs(np.array(out[1], float) - e))), tol, key + ":ubi:reused-%s-cell" % kind,
                             "ubi_to_u_and_eps uses the CURRENT contents of a cell %s the caller reuses" % kind)
+            # argument kinds x call forms: strain, B, UBI and cell as list / tuple / ndarray / views / float32 and, when whole numbers
+            # (zero strain, cells typed as 4, 4, 6, 90, 90, 120), ints and integer arrays; positionally and by keyword
+            ts = 2e-5 / O.gram_det(cell)
+            relB = lambda a, b: float(np.max(np.abs(np.asarray(a, float) - np.asarray(b, float)))) / bn
+            for fn, args in (("epsilon_to_b", [eps, cell]), ("epsilon_to_b_old", [eps, cell])):
+                for pos in (0, 1):
+                    variants(r, key + ":" + fn, getattr(mod, fn), args, pos, tol * 10, ts, dev=relB)
+            for fn, args in (("b_to_epsilon", [Bref, cell]), ("b_to_epsilon_old", [Bo, cell])):
+                for pos in (0, 1):
+                    variants(r, key + ":" + fn, getattr(mod, fn), args, pos, tol * 10, ts)
+            ue = lambda a, b: max(float(np.max(np.abs(np.asarray(a[0], float) - np.asarray(b[0], float)))), float(np.max(np.abs(np.asarray(a[1], float) - np.asarray(b[1], float)))))
+            for pos in (0, 1):
+                variants(r, key + ":ubi_to_u_and_eps", mod.ubi_to_u_and_eps, [ubi0, cell], pos, tol * 10, ts * 10, dev=ue)
         r.states += 4
         r.transitions += 6 + len(rots)
     return r
